@@ -476,11 +476,13 @@ def shell_part(chk):
     # 2. the property itself on the implementation: the real /bin/sh gives the path back
     it = vlib.Interactive(drv)
     nrt = 0
+    real = {}
     try:
         for p in paths:
             if 0 in p:
                 continue
             a = it.ask("sh_real " + hx(p))
+            real[p] = a
             nrt += 1
             chk.count(("sh", hx(p)))
             if a != hx(p):
@@ -500,15 +502,15 @@ def shell_part(chk):
             if a != mres:
                 nsh_dis += 1
                 chk.notes.setdefault("sh_model_disagreements", []).append(dict(text_hex=hx(t), bin_sh=a, model=mres))
-        # the escaped forms themselves are inside the modelled fragment and the model reads them back
-        esc_reqs = ["sh_words " + a for p, a in zip(dpaths, o1) if p and 0 not in p]
-        esc_paths = [p for p in dpaths if p and 0 not in p]
-        rcm, om2, em = vlib.run_lines(model, esc_reqs, timeout=600)
-        for p, mres in zip(esc_paths, om2):
+        # ... and on the escaped forms the implementation produced: the model's reading of them is /bin/sh's
+        esc_of = dict(zip(dpaths, o1))
+        rp = [p for p in paths if p in real]
+        rcm, om2, em = vlib.run_lines(model, ["sh_words " + esc_of[p] for p in rp], timeout=600)
+        for p, mres in zip(rp, om2):
             chk.count()
-            if mres != hx(p):
+            if mres != real[p]:
                 nsh_dis += 1
-                chk.notes.setdefault("sh_model_disagreements", []).append(dict(escaped_of=hx(p), model_sh_words=mres))
+                chk.notes.setdefault("sh_model_disagreements", []).append(dict(escaped_hex=esc_of[p], bin_sh=real[p], model=mres))
     finally:
         it.close()
     chk.sample(dict(kind="shell", path=repr(paths[12]), escaped=repr(unhx(o1[dpaths.index(paths[12])]))))
